@@ -63,7 +63,7 @@ func buildAssertion(r *RNG, s *AuthSpec) M {
 	}
 	if s.d("cd.origin") {
 		h := hostOf(s.Origin)
-		cd.Origin = variant(r, s.Var, []string{"https://evil.example", "https://evil" + h, "https://" + h + ".evil.com", "https://evil.com/" + h, "https://" + h + "@evil.com", "", "https://evil.com?" + h, "https://evil.com#" + h, "null", "https://www.not" + h, "https://x" + h + ":443"})
+		cd.Origin = variant(r, s.Var, []string{"https://evil.example", "https://evil" + h, "https://" + h + ".evil.com", "https://evil.com/" + h, "https://" + h + "@evil.com", "", "https://evil.com?" + h, "https://evil.com#" + h, "null", "https://www.not" + h, "https://x" + h + ":443", "https://login.evil" + h})
 	}
 	cdj := cd.JSON(r)
 	ad := AuthDataSpec{RPIDHash: sha([]byte(hostOf(s.Origin))), Flags: s.Flags, Counter: s.Counter, Ext: s.Ext}
@@ -119,6 +119,9 @@ func buildAssertion(r *RNG, s *AuthSpec) M {
 	}
 	if s.d("userHandle.missing") {
 		uh = nil
+	}
+	if s.d("userHandle.empty") {
+		uh = []byte{}
 	}
 	allow := s.Allow
 	if s.d("allow.excludes") {
